@@ -15,7 +15,7 @@ const FORMS: [(&str, char, usize); 4] = [("[", ']', 1), ("[1,", ']', 2), ("{\"k\
 #[derive(Clone, Debug)]
 struct Case {
     word: Vec<usize>,
-    ending: u8, // 0 closed, 1 unclosed, 2 wrong innermost closer
+    ending: u8, // 0 closed, 1 unclosed, 2 wrong innermost closer, 3 closed + trailing garbage, 4 wrong outermost closer
     rec: (bool, bool),
     entry: u8, // 0 parse_slice_with, 1 parse_str_with
     depth: usize,
@@ -45,9 +45,12 @@ fn cases(tier: Tier) -> Vec<Case> {
     match tier {
         Tier::Quick => {
             for w in words(3) {
-                for ending in 0..3 {
-                    for rec in [(false, false), (true, true)] {
-                        for entry in 0..2 {
+                for ending in 0..7 {
+                    // the error-path endings (3..6) are run under the strict record through the
+                    // byte-slice entry point only; the thorough tier runs the full product
+                    let recs: &[(bool, bool)] = if ending < 3 { &[(false, false), (true, true)] } else { &[(false, false)] };
+                    for &rec in recs {
+                        for entry in 0..(if ending < 3 { 2 } else { 1 }) {
                             v.push(Case {
                                 word: w.clone(),
                                 ending,
@@ -63,7 +66,7 @@ fn cases(tier: Tier) -> Vec<Case> {
         }
         Tier::Thorough => {
             for w in words(3) {
-                for ending in 0..3 {
+                for ending in 0..7 {
                     for rec in crate::drive::RECORDS {
                         for entry in 0..2 {
                             v.push(Case {
@@ -79,7 +82,7 @@ fn cases(tier: Tier) -> Vec<Case> {
                 }
             }
             for w in words(2) {
-                for ending in 0..2 {
+                for ending in [0, 1, 3, 5] {
                     v.push(Case {
                         word: w.clone(),
                         ending,
@@ -118,6 +121,41 @@ fn build(c: &Case) -> (String, usize, Option<(usize, Option<char>)>) {
         1 => {
             let l = s.len();
             (s, frags, Some((l, None)))
+        }
+        3 => {
+            // a complete deep value followed by garbage: the error is found when the value
+            // has already been built (the parser has to dispose of it)
+            for ch in closers.iter().rev() {
+                s.push(*ch);
+            }
+            let at = s.len();
+            s.push('x');
+            (s, frags, Some((at, Some('x'))))
+        }
+        4 => {
+            // everything closed correctly except the outermost container
+            for ch in closers.iter().rev().take(closers.len() - 1) {
+                s.push(*ch);
+            }
+            let outer = closers[0];
+            let wrong = if outer == ']' { '}' } else { ']' };
+            let at = s.len();
+            s.push(wrong);
+            (s, frags, Some((at, Some(wrong))))
+        }
+        5 | 6 => {
+            // a complete deep value as the first item / member of an outer container, then an
+            // error in the next item: the parser gives up while a parent holds the deep value
+            let (open, sep) = if c.ending == 5 { ("[", ",x") } else { ("{\"k\":", ",x") };
+            let mut t = String::with_capacity(s.len() * 2 + 8);
+            t.push_str(open);
+            t.push_str(&s);
+            for ch in closers.iter().rev() {
+                t.push(*ch);
+            }
+            let at = t.len() + 1;
+            t.push_str(sep);
+            (t, frags, Some((at, Some('x'))))
         }
         _ => {
             let inner = *closers.last().unwrap();
@@ -207,7 +245,7 @@ pub fn child_main() -> i32 {
 }
 
 fn case_json(i: usize, c: &Case, tier: Tier) -> J {
-    let ending = ["closed", "unclosed", "wrong innermost closer"][c.ending as usize];
+    let ending = ["closed", "unclosed", "wrong innermost closer", "closed + trailing garbage", "wrong outermost closer", "deep first array item then a bad item", "deep first member then a bad key"][c.ending as usize];
     let entry = ["parse_slice_with", "parse_str_with"][c.entry as usize];
     json!({
         "kind": "pump",
@@ -247,7 +285,7 @@ fn run_range(tier: Tier, start: usize, end: usize, cs: &[Case], t: &mut Tally) {
                     next = i + 1;
                     let status = it.next().unwrap_or("");
                     if status == "ok" {
-                        t.outcome(["pump:closed ok", "pump:unclosed rejected at end", "pump:wrong closer rejected in place"][cs[i].ending as usize]);
+                        t.outcome(["pump:closed ok", "pump:unclosed rejected at end", "pump:wrong closer rejected in place", "pump:trailing garbage rejected in place", "pump:wrong outermost closer rejected in place", "pump:bad sibling of a deep item rejected in place", "pump:bad sibling of a deep member rejected in place"][cs[i].ending as usize]);
                         t.nontrivial(&i);
                     } else {
                         t.violation("", format!("pumped document mishandled: {}", it.next().unwrap_or("")), case_json(i, &cs[i], tier));
@@ -327,7 +365,7 @@ pub fn run(rep: &mut Report, tier: Tier) {
     let mut t = t.into_inner().unwrap();
     t.sample(case_json(0, &cs[0], tier));
     t.sample(case_json(n - 1, &cs[n - 1], tier));
-    rep.bounds["pump"] = json!({"cases": n, "words": "all words of length 1..3 over {[, [1,, {\"k\":, {\"a\":1,\"k\":}", "endings": ["closed", "unclosed", "wrong innermost closer"],
+    rep.bounds["pump"] = json!({"cases": n, "words": "all words of length 1..3 over {[, [1,, {\"k\":, {\"a\":1,\"k\":}", "endings": ["closed", "unclosed", "wrong innermost closer", "closed + trailing garbage", "wrong outermost closer", "deep first item then a bad item", "deep first member then a bad key"],
         "depths": cs.iter().map(|c| c.depth).collect::<std::collections::BTreeSet<_>>(), "stack_kib": cs.iter().map(|c| c.stack_kib).collect::<std::collections::BTreeSet<_>>()});
     rep.absorb(t);
 }
